@@ -430,10 +430,11 @@ func c17HistCheck(c *C17HistCase) ([]ev.Discrepancy, []string) {
 			if !u32eq(res.Data, want) {
 				ds = append(ds, ev.D("c17.full.vs-range", "step %d: full result differs from the range result over all lines for text %q", si, st.text))
 			}
+			// the id "received last" is the one of this answer, even when it carries none
+			st.lastID = res.ResultID
 			if res.ResultID != "" {
 				st.results[res.ResultID] = res.Data
 				st.prevIDs = append(st.prevIDs, res.ResultID)
-				st.lastID = res.ResultID
 			}
 		case "delta":
 			if !st.open {
